@@ -759,6 +759,8 @@ class ExprMixin(object):
             if kind == 'class':
                 return self.ok(st, mk_py(('func', v.py[1] + '.' + attr)))
             if kind == 'extern':
+                if (v.py[1] + '.' + attr) in self.spec.consts:
+                    return self.ok(st, self.const_sv(self.spec.consts[v.py[1] + '.' + attr], node))
                 return self.ok(st, mk_py(('extern', v.py[1] + '.' + attr)))
             if kind == 'excclass':
                 return self.ok(st, mk_py(('extern', v.py[1] + '.' + attr)))
